@@ -432,6 +432,12 @@ pub fn run(tier: Tier) -> i32 {
                 jobs.push((name.clone(), cat, (one(0), one(1), one(2))));
                 let with = |c: usize, l: &Vec<String>| if c == cat { vec![name.clone()] } else { vec![l[k % l.len()].clone()] };
                 jobs.push((name.clone(), cat, (with(0, &all.0), with(1, &all.1), with(2, &all.2))));
+                // ... together with every other pattern of its own category, and with all 30 patterns
+                let own = |c: usize, l: &Vec<String>| if c == cat { l.clone() } else { vec![] };
+                jobs.push((name.clone(), cat, (own(0, &all.0), own(1, &all.1), own(2, &all.2))));
+                if k % 4 == 0 {
+                    jobs.push((name.clone(), cat, (all.0.clone(), all.1.clone(), all.2.clone())));
+                }
             }
         }
         let res = util::par_map(jobs.len(), |j| {
